@@ -65,3 +65,21 @@ pub fn utf8_ascii_stub(v: &[u8]) -> Result<&str, core::str::Utf8Error> {
 	}
 	Ok(unsafe { core::str::from_utf8_unchecked(v) })
 }
+
+/// Stand-in for `std::io::copy` (its contract: read `reader` to its end, hand every byte to
+/// `writer` in order, return the count).  std's own implementation initialises an 8 KiB stack
+/// buffer element by element (`[MaybeUninit<u8>]::fill_with`), which CBMC does not get through
+/// in 90 min; this one reads through a 4-byte buffer, so a skipped region of 6 bytes takes two
+/// reads plus the terminating empty one.
+pub fn copy_stub<R: ?Sized + std::io::Read, W: ?Sized + std::io::Write>(reader: &mut R, writer: &mut W) -> std::io::Result<u64> {
+	let mut buf = [0u8; 4];
+	let mut total = 0u64;
+	loop {
+		let n = reader.read(&mut buf)?;
+		if n == 0 {
+			return Ok(total);
+		}
+		writer.write_all(&buf[..n])?;
+		total += n as u64;
+	}
+}
